@@ -584,6 +584,10 @@ def run(ctx):
                     p.open(vs)
                     got = "accept"
                     err = ""
+                except AssertionError as e:
+                    # the harness' own look at what an *accepted* input serves failed: accepted, and served wrongly
+                    got = "accept" if bad else "reject"
+                    err = f"served wrongly: {e}"[:200]
                 except Exception as e:  # noqa: BLE001
                     got = "reject"
                     err = f"{type(e).__name__}: {e}"[:200]
